@@ -33,6 +33,11 @@ type r1Context struct {
 	chain string
 	key   string
 	kind  string // entry kind, for evidence
+	// reentrant: the context is a closure the library hands to client code (an argument of a call
+	// through a func-typed field/parameter), or a function it calls synchronously: the client may
+	// invoke it from inside one of its own callbacks, which the library runs with locks held
+	reentrant bool
+	handedPkg string // package path of the closure that was handed out (for reentrant contexts)
 	// recvd: channel fields a receive from which precedes the call of this context on the caller's
 	// path (the happens-before edge of a publication by close carries into the callee)
 	recvd []*types.Var
@@ -75,6 +80,18 @@ type r1 struct {
 	escOf      map[*ast.FuncLit]core.LitEscape
 	// option callback construction check
 	applyCalls []string
+	// R11e: locks held at some call of a client function value; blocking acquisitions made by
+	// closures handed to client code
+	clientLocks   map[*types.Var]token.Pos
+	reentrantAcqs []r1ReAcq
+}
+
+type r1ReAcq struct {
+	lock     *types.Var
+	pos      token.Pos
+	chain    string
+	chainPkg string // package of the closure that was handed out
+	wit      []string
 }
 
 var r1Exempt = map[string]string{
@@ -118,6 +135,9 @@ func (r *r1) enqueue(x *r1Context) {
 	}
 	sort.Strings(rc)
 	b = append(b, rc...)
+	if x.reentrant {
+		b = append(b, "reentrant")
+	}
 	x.key = name + " {" + lockKey(x.locks) + "} [" + strings.Join(b, " ") + "]"
 	if r.seen[x.key] {
 		return
@@ -367,6 +387,9 @@ func (r *r1) walkContext(x *r1Context) {
 					// (checked at the end of the path, after deferred calls)
 				}
 			case core.KAcquire:
+				if x.reentrant && !ev.LockTry {
+					r.reentrantAcqs = append(r.reentrantAcqs, r1ReAcq{lock: ev.Lock, pos: ev.Pos, chain: x.chain, chainPkg: x.handedPkg, wit: c.Prog.Witness(p)})
+				}
 				for _, h := range ev.Locks {
 					if h.Var != ev.Lock {
 						k := [2]*types.Var{h.Var, ev.Lock}
@@ -519,6 +542,18 @@ func (r *r1) handleCall(ev *core.Event, x *r1Context, fresh, created map[types.O
 	if ev.Builtin != "" {
 		return
 	}
+	// a call of a client function value (func-typed field, parameter or local that is not one of the
+	// library's own literals) made with locks held
+	if ev.Kind == core.KCall && ev.Callee == nil && ev.FunVal.Kind == core.VUnknown {
+		if r.clientLocks == nil {
+			r.clientLocks = map[*types.Var]token.Pos{}
+		}
+		for _, h := range ev.Locks {
+			if _, ok := r.clientLocks[h.Var]; !ok {
+				r.clientLocks[h.Var] = ev.Pos
+			}
+		}
+	}
 	// invocation of a func-typed field?
 	if ev.Kind == core.KCall {
 		if f := fieldVar(call.Fun, ev.Frame); f != nil {
@@ -587,6 +622,7 @@ func (r *r1) handleCall(ev *core.Event, x *r1Context, fresh, created map[types.O
 	} else {
 		nx.kind = "call"
 		nx.recvd = recvd
+		nx.reentrant, nx.handedPkg = x.reentrant, x.handedPkg
 	}
 	variadic := false
 	if calleeDecl != nil {
@@ -612,7 +648,8 @@ func (r *r1) handleCall(ev *core.Event, x *r1Context, fresh, created map[types.O
 				nx.binds[pobj] = core.Value{Kind: core.VFuncLit, Lit: lit, LitFr: &core.Frame{Pkg: d.Pkg}}
 			} else {
 				d := c.Prog.EnclosingDecl(lit.Pos())
-				r.enqueue(&r1Context{lit: lit, pkg: d.Pkg, outer: d, chain: x.chain + " → closure @" + c.Prog.Pos(lit.Pos()) + " handed to " + core.ExprString(call.Fun), kind: "escaping-closure"})
+				r.enqueue(&r1Context{lit: lit, pkg: d.Pkg, outer: d, chain: x.chain + " → closure @" + c.Prog.Pos(lit.Pos()) + " handed to " + core.ExprString(call.Fun), kind: "escaping-closure",
+					reentrant: ev.Kind == core.KCall && ev.Callee == nil && ev.FunVal.Kind == core.VUnknown, handedPkg: d.Pkg.PkgPath})
 			}
 		}
 		if tv, ok := info.Types[arg]; ok && tv.Value != nil && pobj != nil {
@@ -633,6 +670,9 @@ func (r *r1) handleCall(ev *core.Event, x *r1Context, fresh, created map[types.O
 				}
 				if calleeDecl != nil && pobj != nil && plain && ev.Kind == core.KCall {
 					nx.fresh[pobj] = true
+					if sharesObject(calleeDecl, pobj) {
+						fresh[o] = false
+					}
 				} else {
 					fresh[o] = false
 				}
@@ -645,6 +685,13 @@ func (r *r1) handleCall(ev *core.Event, x *r1Context, fresh, created map[types.O
 			if o := info.Uses[id]; o != nil && fresh[o] {
 				if _, plain := unparen(sel.X).(*ast.Ident); plain && calleeDecl != nil && recvObj != nil && ev.Kind == core.KCall {
 					nx.fresh[recvObj] = true
+					// … but a callee that starts goroutines on it (or captures it in a closure) publishes
+					// the object: from here on the caller shares it
+					if sharesObject(calleeDecl, recvObj) {
+						fresh[o] = false
+					}
+				} else if ev.Kind == core.KGo {
+					fresh[o] = false // go x.method(): the object is shared with the new goroutine
 				} else if calleeDecl == nil && !isLockOrAtomicMethod(ev.Callee) {
 					fresh[o] = false
 				}
@@ -657,7 +704,7 @@ func (r *r1) handleCall(ev *core.Event, x *r1Context, fresh, created map[types.O
 		// the same call without the constant arguments, so that code a constant switches off today
 		// (restartRoutineLocked(false, …)) is judged as well
 		hasConst := false
-		gen := &r1Context{decl: nx.decl, locks: nx.locks, fresh: nx.fresh, kind: nx.kind, recvd: nx.recvd, chain: nx.chain + " (any arguments)", binds: map[types.Object]core.Value{}}
+		gen := &r1Context{decl: nx.decl, locks: nx.locks, fresh: nx.fresh, kind: nx.kind, recvd: nx.recvd, reentrant: nx.reentrant, handedPkg: nx.handedPkg, chain: nx.chain + " (any arguments)", binds: map[types.Object]core.Value{}}
 		for o, v := range nx.binds {
 			// a constant that decides whether the callee takes a lock itself ("if lock { mtx.Lock() }")
 			// is part of the calling convention and stays bound: "lock=false and the caller does
@@ -951,4 +998,38 @@ func transfersLock(d *core.FuncDecl) bool {
 		}
 	}
 	return false
+}
+
+// sharesObject: the function mentions the object (its receiver or a parameter) in a go statement or
+// inside a function literal — after a call of it the object may be reachable from another goroutine.
+func sharesObject(d *core.FuncDecl, obj types.Object) bool {
+	if d == nil || d.Decl.Body == nil || obj == nil {
+		return false
+	}
+	info := d.Pkg.TypesInfo
+	mentions := func(n ast.Node) bool {
+		found := false
+		ast.Inspect(n, func(m ast.Node) bool {
+			if id, ok := m.(*ast.Ident); ok && info.Uses[id] == obj {
+				found = true
+			}
+			return !found
+		})
+		return found
+	}
+	shared := false
+	ast.Inspect(d.Decl.Body, func(n ast.Node) bool {
+		switch x := n.(type) {
+		case *ast.GoStmt:
+			if mentions(x.Call) {
+				shared = true
+			}
+		case *ast.FuncLit:
+			if mentions(x.Body) {
+				shared = true
+			}
+		}
+		return !shared
+	})
+	return shared
 }
